@@ -22,8 +22,9 @@
 
    and per validator NODE the cache  vcache[n][block id] :
      PoA    [kind |-> "poa", list |-> <<[m, act]>> (scheduler.Candidates.list after this block's activity updates),
-             sat |-> memoised index list `satisfied` (<<>> = nil)]           Candidates.endorsors = masters of list
-     PoS    [kind |-> "pos", lg |-> <<[a, act, w, ben]>>]                    ([]validation.Leader)
+             sat |-> memoised index list `satisfied` (<<>> = nil), id]       Candidates.endorsors = masters of list
+     PoS    [kind |-> "pos", lg |-> <<[a, act, w, ben]>>, id]                ([]validation.Leader)
+            id names the Go slice behind the entry: entries with the same id share it (see WriteShared)
 
    The scheduler itself (who owns which slot, who is switched off, the score) is sched/Scheduler.tla (C05); the order
    fact `cord` of a block (order of all addresses for the children of that block: blake2b / weighted random sort) is an
@@ -38,7 +39,7 @@ EXTENDS Integers, Sequences, FiniteSets, TLC
 
 CONSTANTS Masters,   \* universe of node masters / validators (positive naturals)
           Nodes,     \* validator nodes
-          Rules,     \* [authDrop, paramsInv, xferInv, stakerInv, posSync, posOnline, posBen : BOOLEAN]
+          Rules,     \* [authDrop, paramsInv, xferInv, stakerInv, cow, posSync, posOnline, posBen, posNoWrite : BOOLEAN]
           Cfg        \* initial world, see InitWorld
 
 S == INSTANCE Scheduler WITH MaxPosScore <- 10000, V1Walk <- 101
@@ -56,8 +57,8 @@ Without(f, x) == [y \in DOMAIN f \ {x} |-> f[y]]
 EmptyF == [y \in {} |-> 0]
 NumOf(n) == n          \* overridden by configs in which nothing depends on the height (PoA): keeps the window model finite
 SeqWithout(s, x) == SelectSeq(s, LAMBDA y : y # x)
-AllRules == [authDrop |-> TRUE, paramsInv |-> TRUE, xferInv |-> TRUE, stakerInv |-> TRUE,
-             posSync |-> TRUE, posOnline |-> TRUE, posBen |-> TRUE]
+AllRules == [authDrop |-> TRUE, paramsInv |-> TRUE, xferInv |-> TRUE, stakerInv |-> TRUE, cow |-> TRUE,
+             posSync |-> TRUE, posOnline |-> TRUE, posBen |-> TRUE, posNoWrite |-> TRUE]
 
 \* ================================================================================================== the world state
 NoVal == [st |-> "none", w |-> 0, pq |-> 0, on |-> TRUE, ben |-> 0, start |-> 0, exitB |-> 0]
@@ -85,7 +86,7 @@ PickWith(list, sat) == [k \in 1..Len(sat) |-> [a |-> list[sat[k]].m, act |-> lis
 \* len(c.satisfied) == 0  =>  recompute and memoise;  otherwise the memoised indices are used without looking at the state
 Pick(entry, W) == LET sat == IF Len(entry.sat) = 0 THEN ComputeSat(entry.list, W) ELSE entry.sat
                   IN [view |-> PickWith(entry.list, sat), sat |-> sat]
-ColdEntry(W) == [kind |-> "poa", list |-> W.auth, sat |-> <<>>]        \* NewCandidates(authority.AllCandidates())
+ColdEntry(W) == [kind |-> "poa", list |-> W.auth, sat |-> <<>>, id |-> NoBlock]   \* NewCandidates(authority.AllCandidates())
 PoAView(W) == Pick(ColdEntry(W), W).view                                \* = authority.Candidates(checker, mbp): the packer
 
 \* ---- staker.LeaderGroup -------------------------------------------------------------------------------------------
@@ -218,6 +219,16 @@ CacheSeen(n, par, sp) == IF sp.upd /\ Rules.posSync /\ par \in DOMAIN vcache[n] 
 
 Reject(why, cache) == [ok |-> FALSE, why |-> why, w |-> <<>>, cache |-> cache]
 
+\* Aliasing.  A cache entry holds a Go slice: several entries of one node may share it (a PoS hit stores the very slice it
+\* found; a PoA hit Copy()s the Candidates struct, the candidate slice stays shared until Update() clones it).  `id` of an
+\* entry names the slice ( = the block at which it was read from the state / cloned).  The code never writes into a shared
+\* slice; with Rules.cow / Rules.posNoWrite off it does, and every entry sharing the slice changes with it.
+WriteShared(cs, kind, id, field, v) ==
+  [x \in DOMAIN cs |-> IF cs[x].kind = kind /\ cs[x].id = id THEN [cs[x] EXCEPT ![field] = v] ELSE cs[x]]
+SetOn(leaders, off, on) ==
+  [k \in DOMAIN leaders |-> IF leaders[k].a \in off THEN [leaders[k] EXCEPT !.act = FALSE]
+                            ELSE IF leaders[k].a \in on THEN [leaders[k] EXCEPT !.act = TRUE] ELSE leaders[k]]
+
 VResult(n, b) ==
   LET B   == blocks[b]
       P   == blocks[B.par]
@@ -227,7 +238,9 @@ VResult(n, b) ==
   IN
   IF sp.active
   THEN \* ------------------------------------------------------------------------------ validateStakingProposer
-    LET leaders == IF hit /\ cs[B.par].kind = "pos" /\ Len(cs[B.par].lg) > 0 THEN cs[B.par].lg ELSE LGView(sp.w)
+    LET hitS == hit /\ cs[B.par].kind = "pos" /\ Len(cs[B.par].lg) > 0
+        leaders == IF hitS THEN cs[B.par].lg ELSE LGView(sp.w)            \* a hit is the cached slice itself
+        sid == IF hitS THEN cs[B.par].id ELSE b
         I == Inst("pos", leaders, P.cord, TotalWeight(sp.w))
     IN IF ~S!CtorOK(I, B.p) THEN Reject("signer", cs)
        ELSE IF ~S!IsTheTime(I, B.p, B.slot) THEN Reject("unscheduled", cs)
@@ -235,13 +248,19 @@ VResult(n, b) ==
        ELSE IF BenOf(leaders, B.p) # 0 /\ BenOf(leaders, B.p) # B.benef THEN Reject("beneficiary", cs)
        ELSE LET off == S!UpdOff(I, B.p, B.slot)
                 on  == S!UpdOn(I, B.p)
+                upd == off \cup on # {}
                 r   == ApplyTxs(ApplyUpd(sp.w, TRUE, off, on), NoFlags, B.txs, B.num)
-            IN IF r.w # B.w THEN Reject("state root", cs)
+                \* not the code: the updates are written into the leader slice (and the slice kept for this block)
+                wr  == upd /\ ~Rules.posNoWrite
+                lw  == IF wr THEN SetOn(leaders, off, on) ELSE leaders
+                cw  == IF wr THEN WriteShared(cs, "pos", sid, "lg", lw) ELSE cs
+            IN IF r.w # B.w THEN Reject("state root", cw)
                ELSE [ok |-> TRUE, why |-> "", w |-> r.w,
-                     cache |-> IF (off \cup on # {} /\ Rules.posOnline) \/ (r.f.be /\ Rules.posBen) THEN cs   \* noOpCacher / skip
-                               ELSE (b :> [kind |-> "pos", lg |-> leaders]) @@ cs]
+                     cache |-> IF (upd /\ Rules.posOnline /\ ~wr) \/ (r.f.be /\ Rules.posBen) THEN cw      \* noOpCacher / skip
+                               ELSE (b :> [kind |-> "pos", lg |-> lw, id |-> sid]) @@ cw]
   ELSE \* ------------------------------------------------------------------------------ validateAuthorityProposer
-    LET entry == IF hit /\ cs[B.par].kind = "poa" THEN cs[B.par] ELSE ColdEntry(sp.w)      \* a hit is Copy()ed
+    LET hitA == hit /\ cs[B.par].kind = "poa"
+        entry == IF hitA THEN cs[B.par] ELSE [ColdEntry(sp.w) EXCEPT !.id = b]              \* a hit is Copy()ed
         pk == Pick(entry, sp.w)
         I  == Inst("v2", pk.view, P.cord, 0)
     IN IF ~S!CtorOK(I, B.p) THEN Reject("signer", cs)
@@ -249,16 +268,20 @@ VResult(n, b) ==
        ELSE IF S!Score(I, B.p, B.slot) # B.score THEN Reject("score", cs)
        ELSE LET off == S!UpdOff(I, B.p, B.slot)
                 on  == S!UpdOn(I, B.p)
+                upd == off \cup on # {}
                 r   == ApplyTxs(ApplyUpd(sp.w, FALSE, off, on), NoFlags, B.txs, B.num)
-                \* candidates.Update on the copy (copy-on-write of the slice: value semantics here)
-                e1  == [kind |-> "poa", list |-> SetAct(entry.list, FALSE, off, on), sat |-> pk.sat]
+                \* candidates.Update on the copy: the shared slice is cloned first (copy-on-write) - unless Rules.cow is off
+                nl  == SetAct(entry.list, FALSE, off, on)
+                wr  == hitA /\ upd /\ ~Rules.cow
+                cw  == IF wr THEN WriteShared(cs, "poa", entry.id, "list", nl) ELSE cs
+                e1  == [kind |-> "poa", list |-> nl, sat |-> pk.sat, id |-> IF hitA /\ upd /\ ~wr THEN b ELSE entry.id]
                 inv == \/ Rules.paramsInv /\ r.f.pa
                        \/ Rules.stakerInv /\ sp.w.hay /\ r.f.sk
                        \/ Rules.xferInv /\ r.f.xf \cap {e1.list[i].m : i \in DOMAIN e1.list} # {}      \* IsEndorsor
-            IN IF r.w # B.w THEN Reject("state root", cs)
+            IN IF r.w # B.w THEN Reject("state root", cw)
                ELSE [ok |-> TRUE, why |-> "", w |-> r.w,
-                     cache |-> IF Rules.authDrop /\ r.f.au THEN cs                                   \* Handle returns nil
-                               ELSE (b :> (IF inv THEN [e1 EXCEPT !.sat = <<>>] ELSE e1)) @@ cs]
+                     cache |-> IF Rules.authDrop /\ r.f.au THEN cw                                   \* Handle returns nil
+                               ELSE (b :> (IF inv THEN [e1 EXCEPT !.sat = <<>>] ELSE e1)) @@ cw]
 
 \* ================================================================================================== actions
 Init ==
